@@ -119,7 +119,76 @@ fn cap(w: &str) -> String {
     }
 }
 
+/// `rename_all` is documented as applying the `Inflector` crate; the two functions below restate
+/// its case conversions (0.11: `to_pascal_case`, `to_snake_case`, `to_kebab_case`) from their
+/// description: snake-like cases put a separator in front of every character that is not a
+/// lower-case letter when a lower-case letter is next to it; Pascal case starts a word after a
+/// separator, after a digit and at a lower->upper step, and lower-cases everything else (so an
+/// acronym stays one word: `HTTPError` -> `Httperror` but `http_error`).
+fn snake_like(s: &str, sep: char) -> String {
+    let t: Vec<char> = s.trim_end_matches(|c: char| !c.is_alphanumeric()).chars().collect();
+    let all: Vec<char> = s.chars().collect();
+    let mut out = String::new();
+    let mut first = true;
+    for (i, &c) in t.iter().enumerate() {
+        if !c.is_alphanumeric() {
+            if !first {
+                first = true;
+                out.push(sep);
+            }
+            continue;
+        }
+        let not_lower = c == c.to_ascii_uppercase();
+        let neighbour_lower = all.get(i + 1).map(|n| n.is_lowercase()).unwrap_or(false)
+            || (i > 0 && all[i - 1].is_lowercase());
+        if !first && not_lower && neighbour_lower {
+            out.push(sep);
+        }
+        first = false;
+        out.push(c.to_ascii_lowercase());
+    }
+    out
+}
+
+fn pascal_like(s: &str) -> String {
+    let mut out = String::new();
+    let mut new_word = true;
+    let mut last = ' ';
+    let mut found = false;
+    for c in s.trim_end_matches(|c: char| !c.is_alphanumeric()).chars() {
+        if !c.is_alphanumeric() {
+            if found {
+                new_word = true;
+            }
+        } else if c.is_numeric() {
+            found = true;
+            new_word = true;
+            out.push(c);
+        } else if new_word || (last.is_lowercase() && c.is_uppercase()) {
+            found = true;
+            new_word = false;
+            out.push(c.to_ascii_uppercase());
+        } else {
+            found = true;
+            last = c;
+            out.push(c.to_ascii_lowercase());
+        }
+    }
+    out
+}
+
+/// `split_digits = false`: the inflector's result. `true`: the coarser word-splitting reading
+/// (words at separators and lower->Upper steps, a digit run after a letter its own word) that
+/// callers list as an accepted alternative where the documentation's examples do not decide.
 pub fn inflect(s: &str, eff: Eff, split_digits: bool) -> String {
+    if !split_digits {
+        return match eff {
+            Eff::Identity => s.to_string(),
+            Eff::Pascal => pascal_like(s),
+            Eff::Snake => snake_like(s, '_'),
+            Eff::Kebab => snake_like(s, '-'),
+        };
+    }
     match eff {
         Eff::Identity => s.to_string(),
         Eff::Pascal => words(s, split_digits).iter().map(|w| cap(w)).collect(),
